@@ -100,6 +100,24 @@ class MemSock:
         self.sendall(data)
         return len(data)
 
+    def recv(self, n, flags=0):
+        """socket.recv incl. MSG_PEEK (bytes the peer has made available; b"" = EOF)."""
+        if self.closed or self.user_closed:
+            raise OSError(9, "Bad file descriptor")
+        if not self.rx:
+            if not self.net.handler.readable(self):
+                raise BlockingIOError(11, "Resource temporarily unavailable")
+            seg = self.net.handler.on_read(self)
+            if not seg:
+                self.eof_seen = True
+                return b""
+            self.rx = bytes(seg)
+        out = self.rx[:n]
+        if not (flags & _socket.MSG_PEEK):
+            self.rx = self.rx[n:]
+            self.delivered += len(out)
+        return out
+
     def makefile(self, mode="rb", buffering=None, **kw):
         self.refs += 1
         return io.BufferedReader(_Raw(self), 8192)
